@@ -316,4 +316,210 @@ theorem fLoop_rule (g : Nat → Bool) (N : Nat) : ∀ (ds : List Nat) (j : Nat) 
       simp only [hnle, if_false]
       rw [this, hbest]
 
+/-! ### (A) the mirror with its in-place mutation computes `fLoop` -/
+
+theorem getNat_append_right {α} (a : List α) (x : α) (b : List α) : getNat (a ++ x :: b) a.length = .ok x := by
+  simp [getNat]
+
+theorem getNat_append_right1 {α} (a : List α) (x y : α) (b : List α) :
+    getNat (a ++ x :: y :: b) (a.length + 1) = .ok y := by
+  simp [getNat]
+
+theorem getNat_of_getElem? {α} (l : List α) (i : Nat) (x : α) (h : l[i]? = some x) : getNat l i = .ok x := by
+  simp [getNat, h]
+
+theorem getNat_bool (l : List Bool) (i : Nat) (h : i < l.length) : getNat l i = .ok (l.getD i false) := by
+  simp [getNat, List.getD, List.getElem?_eq_getElem h]
+
+theorem getElem?_prefix {α} (a : List α) (x : α) (b : List α) (i : Nat) (v : α)
+    (h : (a ++ [x])[i]? = some v) : (a ++ x :: b)[i]? = some v := by
+  have : a ++ x :: b = (a ++ [x]) ++ b := by simp
+  rw [this]
+  have hi : i < (a ++ [x]).length := by
+    by_cases hi : i < (a ++ [x]).length
+    · exact hi
+    · simp [List.getElem?_eq_none (Nat.le_of_not_lt hi)] at h
+  rw [List.getElem?_append_left hi]; exact h
+
+theorem sepdStep_sim (greedy : List Bool) (g : Nat → Bool) (hgdef : ∀ i, greedy.getD i false = g i)
+    (init' : List Nat) (lastD cd : Nat) (rest : List Nat)
+    (st : SepdSt) (fs : FSt) (Y : List (Nat × Nat))
+    (hev : st.ev = init' ++ lastD :: cd :: rest)
+    (hlen : greedy.length = init'.length + rest.length + 1)
+    (hpwe : st.pwe = fs.pwe) (hpd : st.prevDump = fs.pd) (hle : fs.pwe ≤ init'.length)
+    (hpwD : (init' ++ [lastD])[fs.pwe]? = some fs.pwD)
+    (hout : st.out = Y.map Prod.fst) (hY : ∀ y ∈ Y, init'[y.1]? = some y.2) :
+    ∃ x st1, sepdStep greedy (init'.length + 1) st = .ok st1 ∧
+      st1.ev = (init' ++ [x]) ++ cd :: rest ∧
+      st1.pwe = (fStep g (init'.length + 1) cd lastD fs).1.pwe ∧
+      st1.prevDump = (fStep g (init'.length + 1) cd lastD fs).1.pd ∧
+      (fStep g (init'.length + 1) cd lastD fs).1.pwe ≤ init'.length + 1 ∧
+      (init' ++ [x] ++ [cd])[(fStep g (init'.length + 1) cd lastD fs).1.pwe]? =
+        some (fStep g (init'.length + 1) cd lastD fs).1.pwD ∧
+      st1.out = (Y ++ (fStep g (init'.length + 1) cd lastD fs).2).map Prod.fst ∧
+      ∀ y ∈ Y ++ (fStep g (init'.length + 1) cd lastD fs).2, (init' ++ [x])[y.1]? = some y.2 := by
+  obtain ⟨spwe, spd, sev, sout⟩ := st
+  obtain ⟨pwe, pwD, pd⟩ := fs
+  simp only at hev hpwe hpd hout hle hpwD
+  subst hev hout
+  obtain rfl := hpwe.symm
+  obtain rfl := hpd.symm
+  have hgp : getNat greedy pwe = .ok (g pwe) := by rw [← hgdef]; exact getNat_bool _ _ (by omega)
+  have hcd : getNat (init' ++ lastD :: cd :: rest) (init'.length + 1) = .ok cd := getNat_append_right1 ..
+  have hlast : getNat (init' ++ lastD :: cd :: rest) init'.length = .ok lastD := getNat_append_right ..
+  have hpw : getNat (init' ++ lastD :: cd :: rest) pwe = .ok pwD :=
+    getNat_of_getElem? _ _ _ (getElem?_prefix _ _ _ _ _ hpwD)
+  have hcelt : (init'.length + 1 < greedy.length ∧ g (init'.length + 1) = true) ↔
+      g (init'.length + 1) = true := by
+    constructor
+    · exact fun h => h.2
+    · intro h
+      refine ⟨?_, h⟩
+      by_cases hlt : init'.length + 1 < greedy.length
+      · exact hlt
+      · rw [← hgdef] at h
+        simp [List.getD, List.getElem?_eq_none (Nat.le_of_not_lt hlt)] at h
+  have hYl : ∀ a b, (a, b) ∈ Y → ∀ x, (init' ++ [x])[a]? = some b := by
+    intro a b hab x
+    have := hY (a, b) hab
+    simp only at this
+    have hlt : a < init'.length := by
+      by_cases hlt : a < init'.length
+      · exact hlt
+      · simp [List.getElem?_eq_none (Nat.le_of_not_lt hlt)] at this
+    rw [List.getElem?_append_left hlt]; exact this
+  have hne1 : init'.length + 1 ≠ 0 := by omega
+  by_cases hb : pd < cd
+  · by_cases hgpw : g pwe = true
+    · by_cases he : pwe = init'.length
+      · -- the winner is the last event of the dump: no push
+        subst he
+        have hpwD' : pwD = lastD := by simpa using hpwD.symm
+        subst hpwD'
+        refine ⟨pwD, ?_⟩
+        simp only [sepdStep, hgdef, hcd, hgp, hlast, hpw, bind, Except.bind, hb, gt_iff_lt, if_true, pure, Except.pure,
+          hcelt, fStep, hgpw, hne1, if_false, Nat.add_sub_cancel]
+        by_cases hg : g (init'.length + 1) = true <;> by_cases hy : pd ≤ pwD ∧ pwD < cd
+        · simp [hg, hy, hlast]
+          rintro a b (hab | ⟨rfl, rfl⟩)
+          · exact hYl a b hab pwD
+          · simp
+        · simp [hg, hy, hlast]
+          intro a b hab
+          exact hYl a b hab pwD
+        · simp [hg, hy, hlast]
+          rintro a b (hab | ⟨rfl, rfl⟩)
+          · exact hYl a b hab pwD
+          · simp
+        · simp [hg, hy, hlast]
+          intro a b hab
+          exact hYl a b hab pwD
+      · -- greedy winner earlier in the dump (or carried): the last event is pushed to the next dump
+        have hlt : pwe < init'.length := by omega
+        have hne : init'.length ≠ pwe := by omega
+        have hpwD' : init'[pwe]? = some pwD := by
+          rw [List.getElem?_append_left hlt] at hpwD; exact hpwD
+        refine ⟨lastD + 1, ?_⟩
+        simp only [sepdStep, hgdef, hcd, hgp, hlast, hpw, bind, Except.bind, hb, gt_iff_lt, if_true, pure, Except.pure,
+          hcelt, fStep, hgpw, hne1, if_false, Nat.add_sub_cancel]
+        have hmem : ∀ a b x, ((a, b) ∈ Y ∨ (a = pwe ∧ b = pwD) ∨ (a = init'.length ∧ b = x)) →
+            (init' ++ [x])[a]? = some b := by
+          rintro a b x (hab | ⟨rfl, rfl⟩ | ⟨rfl, rfl⟩)
+          · exact hYl a b hab x
+          · rw [List.getElem?_append_left hlt]; exact hpwD'
+          · simp
+        by_cases hg : g (init'.length + 1) = true <;> by_cases hy : pd ≤ pwD ∧ pwD < cd <;>
+          by_cases hd : lastD + 1 < cd
+        all_goals simp [hg, hy, hlast, hpw, hne, hd, hgpw]
+        all_goals (intro a b h; apply hmem a b; grind)
+    · -- nothing greedy in effect: the last event of the dump wins
+      have hgpw' : g pwe = false := by simpa using hgpw
+      refine ⟨lastD, ?_⟩
+      simp only [sepdStep, hgdef, hcd, hgp, hlast, hpw, bind, Except.bind, hb, gt_iff_lt, if_true, pure, Except.pure,
+        hcelt, fStep, hgpw', hne1, if_false, Nat.add_sub_cancel]
+      have hmem : ∀ a b, ((a, b) ∈ Y ∨ (a = init'.length ∧ b = lastD)) → (init' ++ [lastD])[a]? = some b := by
+        rintro a b (hab | ⟨rfl, rfl⟩)
+        · exact hYl a b hab lastD
+        · simp
+      by_cases hg : g (init'.length + 1) = true <;> by_cases hy : pd ≤ lastD ∧ lastD < cd
+      all_goals simp [hg, hy, hlast]
+      all_goals (intro a b h; apply hmem a b; grind)
+  · refine ⟨lastD, ?_⟩
+    simp only [sepdStep, hgdef, hcd, bind, Except.bind, hb, gt_iff_lt, if_false, pure, Except.pure, hcelt, fStep]
+    by_cases hg : g (init'.length + 1) = true
+    · simp [hg]
+      intro a b hab
+      exact hYl a b hab lastD
+    · simp [hg]
+      refine ⟨?_, ?_, ?_⟩
+      · omega
+      · have := getElem?_prefix init' lastD [cd] pwe pwD hpwD
+        simpa using this
+      · intro a b hab
+        exact hYl a b hab lastD
+
+
+theorem sepdLoop_sim (greedy : List Bool) (g : Nat → Bool) (hgdef : ∀ i, greedy.getD i false = g i) :
+    ∀ (suf init' : List Nat) (lastD : Nat) (st : SepdSt) (fs : FSt) (Y : List (Nat × Nat)),
+    st.ev = init' ++ lastD :: suf → greedy.length = init'.length + suf.length →
+    st.pwe = fs.pwe → st.prevDump = fs.pd → fs.pwe ≤ init'.length →
+    (init' ++ [lastD])[fs.pwe]? = some fs.pwD →
+    st.out = Y.map Prod.fst → (∀ y ∈ Y, init'[y.1]? = some y.2) →
+    ∃ st', sepdLoop greedy suf.length (init'.length + 1) st = .ok st' ∧
+      st'.out = (Y ++ fLoop g suf (init'.length + 1) lastD fs).map Prod.fst ∧
+      ∀ y ∈ Y ++ fLoop g suf (init'.length + 1) lastD fs, st'.ev[y.1]? = some y.2 := by
+  intro suf
+  induction suf with
+  | nil =>
+    intro init' lastD st fs Y hev _ _ _ _ _ hout hY
+    refine ⟨st, rfl, by simpa [fLoop] using hout, ?_⟩
+    intro y hy
+    simp only [fLoop, List.append_nil] at hy
+    have := hY y hy
+    rw [hev]
+    have hlt : y.1 < init'.length := by
+      by_cases hlt : y.1 < init'.length
+      · exact hlt
+      · simp [List.getElem?_eq_none (Nat.le_of_not_lt hlt)] at this
+    rw [List.getElem?_append_left hlt]; exact this
+  | cons cd rest ih =>
+    intro init' lastD st fs Y hev hlen hpwe hpd hle hpwD hout hY
+    obtain ⟨x, st1, hstep, hev1, hpwe1, hpd1, hle1, hpwD1, hout1, hY1⟩ :=
+      sepdStep_sim greedy g hgdef init' lastD cd rest st fs Y hev
+        (by simp only [List.length_cons] at hlen; omega) hpwe hpd hle hpwD hout hY
+    have hev1' : st1.ev = (init' ++ [x]) ++ cd :: rest := hev1
+    obtain ⟨st', hloop, hout', hY'⟩ := ih (init' ++ [x]) cd st1 (fStep g (init'.length + 1) cd lastD fs).1
+      (Y ++ (fStep g (init'.length + 1) cd lastD fs).2) hev1'
+      (by simp only [List.length_cons, List.length_append, List.length_nil] at hlen ⊢; omega)
+      hpwe1 hpd1 (by simpa using hle1) hpwD1 hout1 hY1
+    have hl : (init' ++ [x]).length = init'.length + 1 := by simp
+    rw [hl] at hloop hout' hY'
+    refine ⟨st', ?_, ?_, ?_⟩
+    · simp only [List.length_cons, sepdLoop, hstep, bind, Except.bind]
+      exact hloop
+    · simpa [fLoop, List.append_assoc] using hout'
+    · simpa [fLoop, List.append_assoc] using hY'
+
+/-- **(A)** `list(_single_event_per_dump(events, greedy))` and the mutated `events`, for
+    `events[0] = 0` and `len(greedy) = len(events) - 1`: the yielded indices are those of the
+    array-free `fLoop`, and the mutated array holds each yielded event's dump. -/
+theorem sepd_eq (suf : List Nat) (greedy : List Bool) (hlen : greedy.length = suf.length) :
+    ∃ ev', sepd (0 :: suf) greedy =
+        .ok ((fLoop (fun i => greedy.getD i false) suf 1 0 ⟨0, 0, 0⟩).map Prod.fst, ev') ∧
+      ∀ y ∈ fLoop (fun i => greedy.getD i false) suf 1 0 ⟨0, 0, 0⟩, ev'[y.1]? = some y.2 := by
+  have h0 : sepdStep greedy 0 { pwe := 0, prevDump := 0, ev := 0 :: suf, out := [] } =
+      .ok { pwe := 0, prevDump := 0, ev := 0 :: suf, out := [] } := by
+    simp only [sepdStep, getNat, List.getElem?_cons_zero, bind, Except.bind, gt_iff_lt, Nat.lt_irrefl, if_false,
+      pure, Except.pure]
+    split <;> rfl
+  obtain ⟨st', hloop, hout, hY⟩ := sepdLoop_sim greedy (fun i => greedy.getD i false) (fun _ => rfl) suf [] 0
+    { pwe := 0, prevDump := 0, ev := 0 :: suf, out := [] } ⟨0, 0, 0⟩ [] rfl (by simpa using hlen) rfl rfl
+    (by simp) (by simp) rfl (by simp)
+  refine ⟨st'.ev, ?_, by simpa using hY⟩
+  simp only [sepd, List.length_cons, sepdLoop, h0, bind, Except.bind, pure, Except.pure]
+  simp only [List.length_nil, Nat.zero_add] at hloop
+  rw [hloop]
+  simp only [List.nil_append, List.length_nil, Nat.zero_add] at hout
+  simp only [hout]
+
 end Categorical
